@@ -681,6 +681,42 @@ def rule_r13(prog, res):
                     srcs.append(unparse(kw[0]))
                 ok = bool(kw) and any('xsi:type' in s_ or 'XSI_TYPE' in s_
                                       for s_ in srcs)
+                # nothing is taken out of the kept set again
+                if kw:
+                    removed = []
+                    for a in walk_no_defs(f.node):
+                        if isinstance(a, ast.Assign) and any(
+                                isinstance(t, ast.Name) and t.id in names
+                                for t in a.targets) and isinstance(
+                                a.value, (ast.ListComp, ast.SetComp,
+                                          ast.GeneratorExp)) and any(
+                                g_.ifs for g_ in a.value.generators) and any(
+                                isinstance(y, ast.Name) and y.id in names
+                                for g_ in a.value.generators
+                                for y in ast.walk(g_.iter)):
+                            removed.append((a, unparse(a.value)))
+                        if isinstance(a, ast.Expr) and isinstance(
+                                a.value, ast.Call) and isinstance(
+                                a.value.func, ast.Attribute) and \
+                                a.value.func.attr in (
+                                    'discard', 'remove', 'difference_update',
+                                    'intersection_update', 'pop', 'clear') \
+                                and unparse(a.value.func.value) in names:
+                            removed.append((a, unparse(a.value)))
+                    for a, t_ in removed:
+                        where = '%s:%d' % (mod.relpath, a.lineno)
+                        res.ob('R13', where, '%s filters the kept prefixes: '
+                               '%s' % (f.qualname, t_[:60]), 'VIOLATED')
+                        res.finding('R13', '%s|kept-prefixes-filtered' %
+                                    f.qualname, where, '%s takes prefixes out '
+                                    'of the set collected from the xsi:type '
+                                    'values (%s): lxml strips a declaration '
+                                    'whose prefix no element name uses, the '
+                                    'root\'s included, so the marker of an '
+                                    'instance without set members is left '
+                                    'unbound (Soap11/Soap12: the Envelope '
+                                    'declares the whole interface nsmap)' % (
+                                        f.qualname, t_[:60]))
                 # declarations lost when a detached subtree was moved are
                 # restored at the root from the interface's prefix map
                 top = [k.value for k in c.keywords if k.arg == 'top_nsmap']
@@ -1019,6 +1055,13 @@ _I = 'spyne/interface/_base.py'
 _H = 'spyne/protocol/dictdoc/hier.py'
 
 MUTANTS = [
+    Mutant('kept-prefixes-minus-root-declarations', 'R13', 'fire', _X,
+           in_func('XmlDocument._cleanup_namespaces',
+                   "        etree.cleanup_namespaces(document, top_nsmap=top_"
+                   "nsmap or None,",
+                   "        keep = [p for p in keep if p not in document.nsmap]"
+                   "\n        etree.cleanup_namespaces(document, top_nsmap="
+                   "top_nsmap or None,"), 'kept-prefixes-filtered'),
     Mutant('child-attributes-set-on-parent', 'R18', 'fire', _X,
            in_func('XmlDocument.complex_from_element',
                    "            inst._safe_set(key, value, member, "
